@@ -83,23 +83,7 @@ def specUintBytes (v : Nat) : List UInt8 :=
 /-- … and its value: all bytes, big-endian -/
 def specUintValue (bs : List UInt8) : Nat := bs.foldl (fun a b => a * 256 + b.toNat) 0
 
-def handle (spec : Bool) (line : String) : String :=
-  match words line with
-  | ["dec", v] =>
-    match v.toNat? with
-    | some v =>
-      match decOut spec v with
-      | .ok (s, n, m) => s!"ok {s} {n} {if m then 1 else 0}"
-      | .error e => fmtErr e
-    | none => "bad-op"
-  | ["enc", s, n, m] =>
-    match s.toNat?, parseInt? n, m.toNat? with
-    | some s, some n, some m =>
-      match encOut spec s n (m != 0) with
-      | .ok v => s!"ok {v}"
-      | .error e => fmtErr e
-    | _, _, _ => "bad-op"
-  | ["wenc", id, _coder, s, n, m] =>
+def handleWenc (spec : Bool) (id _coder s n m : String) : String :=
     -- the block option as a message carries it (Model/BlockOptWire; Props/C19Wire: the coders hand the value bytes on unchanged)
     match id.toNat?, s.toNat?, parseInt? n, m.toNat? with
     | some _, some s, some n, some m =>
@@ -119,6 +103,27 @@ def handle (spec : Bool) (line : String) : String :=
           | .ok (s', n', m') => s!"ok {toHex bs} {s'} {n'} {if m' then 1 else 0}"
           | .error e => s!"sent {toHex bs} {fmtErr (some e)}"
     | _, _, _, _ => "bad-op"
+
+def handle (spec : Bool) (line : String) : String :=
+  match words line with
+  | ["dec", v] =>
+    match v.toNat? with
+    | some v =>
+      match decOut spec v with
+      | .ok (s, n, m) => s!"ok {s} {n} {if m then 1 else 0}"
+      | .error e => fmtErr e
+    | none => "bad-op"
+  | ["enc", s, n, m] =>
+    match s.toNat?, parseInt? n, m.toNat? with
+    | some s, some n, some m =>
+      match encOut spec s n (m != 0) with
+      | .ok v => s!"ok {v}"
+      | .error e => fmtErr e
+    | _, _, _ => "bad-op"
+  | ["wenc2", id, coder, s, n, m, _prev] =>
+    -- a second `SetOptionUint32` replaces the value (C15: `set_refines`): the previous value leaves no trace
+    handleWenc spec id coder s n m
+  | ["wenc", id, coder, s, n, m] => handleWenc spec id coder s n m
   | ["wdec", id, _coder, h] =>
     match id.toNat?, parseHex? h with
     | some _, some bs =>
